@@ -120,8 +120,19 @@ def _crop_common(ctx, name, s, t0, t1, out):
         ctx.branch('crop:arc-large')
     tol = max(base_tol(s, interior), base_tol(out, interior) if type(out) is type(s) else 0.0)
     key = 'cropped/%s/%s' % (name, 'interior' if interior else 'to-end')
-    pointwise(ctx, key, 'cropped(t0,t1).point(u) != point(t0+u(t1-t0))', s, out,
-              lambda u: t0 + u * (t1 - t0), tol, {'t0': t0, 't1': t1})
+    ok = pointwise(ctx, key, 'cropped(t0,t1).point(u) != point(t0+u(t1-t0))', s, out,
+                   lambda u: t0 + u * (t1 - t0), tol, {'t0': t0, 't1': t1})
+    if ok and type(out).__name__ == 'Arc':
+        # the piece is an Arc like any other: the arc its own defining fields (start, radius, rotation, large_arc,
+        # sweep, end) describe is the curve it traces (whatever is built from the piece later - its reverse, its
+        # d-string - starts from those fields)
+        try:
+            twin = type(out)(out.start, out.radius, out.rotation, out.large_arc, out.sweep, out.end)
+        except Exception:
+            return
+        half = abs(abs(out.delta) - 180) < 1e-6
+        pointwise(ctx, 'cropped/%s/own-fields' % name, 'the arc described by the piece\'s own fields is not the piece',
+                  out, twin, lambda u: u, max(tol, base_tol(out) * (1e3 if half else 1)), {'t0': t0, 't1': t1})
 
 
 def post_cropped(call):
@@ -414,7 +425,10 @@ def run_case(ctx, case):
         for t in case['split']:
             s.split(t)
         for t0, t1 in case['pairs']:
-            s.cropped(t0, t1)
+            piece = s.cropped(t0, t1)
+            # pieces are segments too: the same operations apply to them
+            piece.reversed()
+            piece.cropped(0.25, 0.75)
         return
     p = gen.path(case['segs'])
     for c in case['cls']:
